@@ -1,0 +1,65 @@
+//go:build verif
+
+package issuelink
+
+// Contracts for the deductive verifier in /verif (comment-only file; see /verif/DESIGN.md).
+
+//@ type withIssueLink invariant self.cause != nil
+//@ method (*withIssueLink).Error
+//@   props C10
+//@   ensures result == msg(self.cause)
+//@ method (*withIssueLink).Cause
+//@   props C07 C10 C14
+//@   ensures result == self.cause
+//@ method (*withIssueLink).Unwrap
+//@   props C07 C10 C14
+//@   ensures result == self.cause
+
+//@ method (*withIssueLink).SafeDetails
+//@   props C03 C11 C12
+//@   ensures len(result) == 2 && result[0] == self.IssueURL && result[1] == self.Detail
+//@ method (*unimplementedError).Error
+//@   props C10
+//@   ensures result == self.msg
+//@ method (*unimplementedError).SafeDetails
+//@   props C03 C11 C12
+//@   ensures len(result) == 2 && result[0] == self.IssueURL && result[1] == self.Detail
+
+//@ func WithIssueLink
+//@   props C10 C07 C12
+//@   ensures err == nil ==> result == nil
+//@   ensures err != nil ==> typeis(result, *withIssueLink) && result.(*withIssueLink).cause == err && result.(*withIssueLink).IssueLink == issue
+
+//@ func UnimplementedError
+//@   props C10 C12
+//@   ensures typeis(result, *unimplementedError) && result.(*unimplementedError).msg == msg && result.(*unimplementedError).IssueLink == issueLink
+
+//@ func UnimplementedErrorf
+//@   props C10
+//@   ensures typeis(result, *unimplementedError) && result.(*unimplementedError).IssueLink == issueLink
+
+//@ func decodeWithIssueLink
+//@   props C05 C01 C11
+//@   requires cause != nil
+//@   ensures typeis(result, *withIssueLink) && result.(*withIssueLink).cause == cause
+//@   ensures result.(*withIssueLink).IssueURL == (len(details) > 0 ? details[0] : "")
+//@   ensures result.(*withIssueLink).Detail == (len(details) > 1 ? details[1] : "")
+
+//@ func decodeUnimplementedError
+//@   props C05 C01 C11
+//@   ensures typeis(result, *unimplementedError) && result.(*unimplementedError).msg == msg
+//@   ensures result.(*unimplementedError).IssueURL == (len(details) > 0 ? details[0] : "")
+//@   ensures result.(*unimplementedError).Detail == (len(details) > 1 ? details[1] : "")
+
+//@ func IsIssueLink
+//@   props C07 C11
+//@   ensures result == typeis(err, *withIssueLink)
+//@ func IsUnimplementedError
+//@   props C07 C11
+//@   ensures result == typeis(err, *unimplementedError)
+
+//@ func GetIssueLink
+//@   props C11 C19
+//@   ensures typeis(err, *withIssueLink) ==> result1 && result0 == err.(*withIssueLink).IssueLink
+//@   ensures typeis(err, *unimplementedError) ==> result1 && result0 == err.(*unimplementedError).IssueLink
+//@   ensures (!typeis(err, *withIssueLink) && !typeis(err, *unimplementedError)) ==> !result1
